@@ -13,6 +13,7 @@
 #include <stdlib.h>
 #include <string.h>
 #include <stdint.h>
+#include <unistd.h>
 
 using namespace ace_time;
 
@@ -47,6 +48,8 @@ struct World {
   TimeZoneData saved[3];
   bool have[3];
   char line[64];
+  ExtendedZoneProcessor* heapX;
+  BasicZoneProcessor* heapB;
 };
 
 static int64_t epochOfYearStart(int y) {
@@ -66,10 +69,14 @@ static acetime_t drawEpoch(Rng& r) {
   }
 }
 
+// The payload of an ERROR value is nobody's business (the statement asks for "values whose isError is true"): its
+// fields are consumed only when the value is not an error; isError() and printTo() always.
 static void consumeOdt(const OffsetDateTime& o) {
   consume(o.isError());
-  consume(o.year()); consume(o.month()); consume(o.day()); consume(o.hour()); consume(o.minute()); consume(o.second());
-  consume(o.timeOffset().toMinutes());
+  if (!o.isError()) {
+    consume(o.year()); consume(o.month()); consume(o.day()); consume(o.hour()); consume(o.minute()); consume(o.second());
+    consume(o.timeOffset().toMinutes());
+  }
   NullPrint p; o.printTo(p);
 }
 
@@ -84,8 +91,8 @@ static void step(World& w, Rng& r) {
       case 0: w.tz[c] = TimeZone::forError(); break;
       case 1: w.tz[c] = TimeZone::forUtc(); break;
       case 2: w.tz[c] = TimeZone::forTimeOffset(TimeOffset::forMinutes((int16_t)r.range(-960, 960)), TimeOffset::forMinutes((int16_t)r.range(-120, 120))); break;
-      case 3: w.tz[c] = TimeZone::forZoneInfo(zonedb::kZoneRegistry[r.below(zonedb::kZoneRegistrySize)], &w.bp[r.below(2)]); break;
-      case 4: w.tz[c] = TimeZone::forZoneInfo(zonedbx::kZoneRegistry[r.below(zonedbx::kZoneRegistrySize)], &w.xp[r.below(2)]); break;
+      case 3: { uint64_t pi = r.below(3); w.tz[c] = TimeZone::forZoneInfo(zonedb::kZoneRegistry[r.below(zonedb::kZoneRegistrySize)], pi == 2 ? w.heapB : &w.bp[pi]); break; }
+      case 4: { uint64_t pi = r.below(3); w.tz[c] = TimeZone::forZoneInfo(zonedbx::kZoneRegistry[r.below(zonedbx::kZoneRegistrySize)], pi == 2 ? w.heapX : &w.xp[pi]); break; }
       case 5: w.tz[c] = w.bm->createForZoneInfo(zonedb::kZoneRegistry[r.below(zonedb::kZoneRegistrySize)]); break;
       case 6: w.tz[c] = w.xm->createForZoneInfo(zonedbx::kZoneRegistry[r.below(zonedbx::kZoneRegistrySize)]); break;
       case 7: {   // by id: present, or absent
@@ -110,7 +117,7 @@ static void step(World& w, Rng& r) {
   }
   const TimeZone& tz = w.tz[c];
   if (k < 30) { SAY("client %d: getType / isError / isUtc / getZoneId", c); consume(tz.getType()); consume(tz.isError()); consume(tz.isUtc()); consume((long)tz.getZoneId()); return; }
-  if (k < 42) { acetime_t e = drawEpoch(r); SAY("client %d: getUtcOffset(%ld)", c, (long)e); TimeOffset o = tz.getUtcOffset(e); consume(o.isError()); consume(o.toMinutes()); return; }
+  if (k < 42) { acetime_t e = drawEpoch(r); SAY("client %d: getUtcOffset(%ld)", c, (long)e); TimeOffset o = tz.getUtcOffset(e); consume(o.isError()); consume(o.toMinutes()); return; }   // a TimeOffset IS its minutes: isError() reads them
   if (k < 50) { acetime_t e = drawEpoch(r); SAY("client %d: getDeltaOffset(%ld)", c, (long)e); TimeOffset o = tz.getDeltaOffset(e); consume(o.isError()); consume(o.toMinutes()); return; }
   if (k < 58) { acetime_t e = drawEpoch(r); SAY("client %d: getAbbrev(%ld)", c, (long)e); consumeStr(tz.getAbbrev(e)); return; }
   if (k < 72) {
@@ -122,8 +129,8 @@ static void step(World& w, Rng& r) {
     if (r.below(2)) consumeOdt(tz.getOffsetDateTime(ldt));
     else {
       ZonedDateTime z = ZonedDateTime::forComponents((int16_t)y, (uint8_t)mo, (uint8_t)d, (uint8_t)h, (uint8_t)mi, 0, tz);
-      consume(z.isError()); consume(z.year()); consume(z.month()); consume(z.day()); consume(z.hour());
-      consume(z.timeOffset().toMinutes());
+      consume(z.isError());
+      if (!z.isError()) { consume(z.year()); consume(z.month()); consume(z.day()); consume(z.hour()); consume(z.timeOffset().toMinutes()); }
       NullPrint p; z.printTo(p);
     }
     return;
@@ -132,13 +139,13 @@ static void step(World& w, Rng& r) {
     acetime_t e = drawEpoch(r);
     SAY("client %d: ZonedDateTime::forEpochSeconds(%ld), print, convert", c, (long)e);
     ZonedDateTime z = ZonedDateTime::forEpochSeconds(e, tz);
-    consume(z.isError()); consume(z.year()); consume(z.month()); consume(z.day()); consume(z.hour()); consume(z.minute());
-    consume(z.timeOffset().toMinutes());
+    consume(z.isError());
+    if (!z.isError()) { consume(z.year()); consume(z.month()); consume(z.day()); consume(z.hour()); consume(z.minute()); consume(z.timeOffset().toMinutes()); }
     NullPrint p; z.printTo(p);
     if (!z.isError() && z.year() > 1935 && z.year() < 2065) {
       consume((long)z.toEpochSeconds());
       ZonedDateTime u = z.convertToTimeZone(w.tz[r.below(kClients)]);
-      consume(u.isError()); consume(u.hour());
+      consume(u.isError()); if (!u.isError()) consume(u.hour());
     }
     return;
   }
@@ -164,11 +171,17 @@ static void step(World& w, Rng& r) {
 }
 
 static void runSequence(uint64_t verifSeed, uint64_t index, int nops, const int* skip, int nskip) {
-  World* w = new World();
+  // default-initialisation, NOT `new World()`: value-initialisation would zero-fill the processors before their
+  // constructors run and MemorySanitizer would take every member they leave unwritten for written
+  World* w = new World;
+  ExtendedZoneProcessor* hx = new ExtendedZoneProcessor;   // processors that are neither zero-filled nor manager-owned
+  BasicZoneProcessor* hb = new BasicZoneProcessor;
+  w->heapX = hx; w->heapB = hb;
   w->bm = new BasicZoneManager<2>(zonedb::kZoneRegistrySize, zonedb::kZoneRegistry);
   w->xm = new ExtendedZoneManager<2>(zonedbx::kZoneRegistrySize, zonedbx::kZoneRegistry);
   for (int i = 0; i < 3; i++) w->have[i] = false;
   memset(w->line, 0, sizeof w->line);
+  alarm(30);   // a sequence takes microseconds; a library call that does not return ends the process with SIGALRM
   Rng r; r.seed(verifSeed, index);
   int n = (int)r.range(4, 60);
   if (nops >= 0 && nops < n) n = nops;
@@ -179,7 +192,7 @@ static void runSequence(uint64_t verifSeed, uint64_t index, int nops, const int*
     for (int k = 0; k < nskip; k++) if (skip[k] == i) skipped = true;
     if (!skipped) step(*w, ro);
   }
-  delete w->bm; delete w->xm; delete w;
+  delete w->bm; delete w->xm; delete hx; delete hb; delete w;
 }
 
 int main(int argc, char** argv) {
